@@ -29,6 +29,8 @@ says; its final observation is judged by the same predicate (`spec_model`).
   (`Spec.C14.traceOk`; theorem `trace_sound`).  The state the trace leads to must in addition show
   the counts the harness observed from outside.  A trace that is not a path is a correspondence
   failure: `agree = false`, `diff` names the first event that cannot be placed.
+* DIRECT cases (`input.via = "direct"`): the exported API of the group and `Queue` driven call by call, compared
+  exactly with the store model that keeps map entries (`handleDirect` below).
 -/
 open Lean AutoVerif.Codec
 namespace AutoVerif.C14
@@ -285,7 +287,120 @@ def summary (o : Obs) : String :=
   let cs := o.callers.map fun c => s!"(ret={c.returned} del={c.delivered.length} anon={c.anon} started={c.started.length} panicked={c.panicked.length})"
   s!"{cs} leaked={o.leaked} maxConc={o.maxConc}"
 
+/-! ### direct use of the public API (`input.via = "direct"`)
+
+The harness drives `Do` / `NotifyResult` / `Results` / `RemoveGroup` of a real worker group and a real
+`Queue` value call by call (harness/c14_direct_test.go) and reports the outcome of every call.  The model
+(`Model/C14.lean` `dstep`: the store WITH its map entries) is run on the same calls; outcomes are compared
+exactly, and the Spec predicate for direct histories (`Spec/C14.lean` `directSpec`, the entry-less monitor)
+is evaluated on both (`Props/C14.lean` `direct_spec_of_model`). -/
+
+def dopOf (j : Json) : R DOp := do
+  let op ← strF j "op"
+  let g ← natF j "g"
+  let v ← natF j "v"
+  match op with
+  | "submit" => pure (.submit g v)
+  | "submit-cancelled" => pure (.submitCancelled g)
+  | "finish" => pure (.finish g v)
+  | "remove" => pure (.remove g)
+  | "results" => pure (.results g)
+  | "poll" => pure (.poll g)
+  | "q-add" => pure (.qAdd (← listOf asNat (fieldD j "vs" .null)))
+  | "q-pop" => pure .qPop
+  | "q-len" => pure .qLen
+  | _ => throw s!"unknown direct op {op}"
+
+def doutOf (j : Json) : R DOut := do
+  let k ← strF j "k"
+  match k with
+  | "accepted" => pure (.accepted (← natF j "n"))
+  | "refused" => pure .refused
+  | "finished" => pure (.finished (← natF j "n"))
+  | "unit" => pure .unit
+  | "vals" => pure (.vals (← listOf asNat (fieldD j "vals" .null)))
+  | "token" => pure (.token (← boolF j "b"))
+  | "popped" =>
+    let isNone ← boolF j "none"
+    let n ← natF j "n"
+    pure (.popped (if isNone then none else some n))
+  | "len" => pure (.len (← natF j "n"))
+  | _ => throw s!"unknown direct outcome {k}"
+
+def showDOut : DOut → String
+  | .accepted r => s!"accepted(running={r})" | .refused => "refused" | .finished r => s!"finished(running={r})"
+  | .unit => "unit" | .vals l => s!"vals{l}" | .token b => s!"token({b})"
+  | .popped o => s!"popped({o})" | .len n => s!"len({n})"
+
+def showDOp : DOp → String
+  | .submit g v => s!"submit(g{g},job{v})" | .submitCancelled g => s!"submit-cancelled(g{g})"
+  | .finish g v => s!"finish(g{g},job{v})" | .remove g => s!"remove(g{g})" | .results g => s!"results(g{g})"
+  | .poll g => s!"poll(g{g})" | .qAdd vs => s!"q-add{vs}" | .qPop => "q-pop" | .qLen => "q-len"
+
+/-- which branches of the code the calls go through, according to the model (for the evidence) -/
+def directTags (workers : Nat) : DState → List DOp → List String
+  | _, [] => []
+  | d, op :: ops =>
+    (match op with
+     | .finish g _ =>
+       (if (d.store.data g).isNone then ["store:data-entry-missing"] else []) ++
+       (if (d.store.notify g).isNone then ["store:notify-entry-missing"] else []) ++
+       (if (d.store.notify g) == some true then ["store:notify-full"] else [])
+     | .results g => if (d.store.data g).isNone then ["results:entry-missing"] else []
+     | .poll g => if (d.store.notify g).isNone then ["poll:entry-missing"] else []
+     | .submit g _ => if (d.store.data g).isNone then ["do:creates-entries"] else ["do:entries-exist"]
+     | .qPop => if d.queue.isEmpty then ["queue:pop-empty"] else ["queue:pop"]
+     | .remove g => if ((d.store.data g).getD []).isEmpty then ["remove:nothing-stored"] else ["remove:wipes-results"]
+     | _ => []) ++ directTags workers (dstep workers d op).2 ops
+
+def firstDiff (ops : List DOp) (a b : List DOut) : String :=
+  match ((List.range ops.length).zip (ops.zip (a.zip b))).find? (fun p => p.2.2.1 != p.2.2.2) with
+  | some (i, op, x, y) => s!"call #{i} {showDOp op}: model {showDOut x}, implementation {showDOut y}"
+  | none => s!"model has {a.length} outcomes, implementation {b.length}"
+
+/-- the contract of the generator (not of the code): job ids are fresh and `finish` names a job whose
+function is RUNNING (jobs start in acceptance order as workers are free).  A history that breaks it — the
+shrinker produces such when it drops calls — claims nothing. -/
+def directWellFormed (workers : Nat) : List (Nat × Nat) → List (Nat × Nat) → List Nat → List DOp → Bool
+  | _, _, _, [] => true
+  | running, queued, used, op :: ops =>
+    match op with
+    | .submit g v =>
+      decide (v ≥ 1) && !used.contains v &&
+      (if running.length < workers then directWellFormed workers (running ++ [(g, v)]) queued (v :: used) ops
+       else directWellFormed workers running (queued ++ [(g, v)]) (v :: used) ops)
+    | .finish g v =>
+      running.contains (g, v) &&
+      (match queued with
+       | [] => directWellFormed workers (running.erase (g, v)) [] used ops
+       | q :: qs => directWellFormed workers (running.erase (g, v) ++ [q]) qs used ops)
+    | _ => directWellFormed workers running queued used ops
+
+def handleDirect (input impl : Json) : R Reply := do
+  let workers ← natF input "workers"
+  let ops ← listOf dopOf (fieldD input "ops" .null)
+  if !directWellFormed workers [] [] [] ops || workers == 0 then
+    return { agree := true, specModel := true, specImpl := true, nontrivial := false,
+             tags := ["via:direct", "direct:ill-formed-history-skipped"], key := "direct/ill-formed" }
+  let outs ← listOf doutOf (fieldD impl "outs" .null)
+  let crashed := (← boolF impl "crashed") || (fieldD impl "panic" (.str "")) != .str ""
+  let leaked ← natF impl "leaked"
+  let want := drun workers {} ops
+  let si := directSpec workers ops outs && !crashed && leaked == 0
+  let sm := directSpec workers ops want
+  let agree := want == outs && !crashed && leaked == 0
+  let tags := (directTags workers {} ops).eraseDups
+  pure { agree := agree, specModel := sm, specImpl := si,
+         diff := if agree then "" else if crashed then "the run crashed" else if leaked != 0 then s!"{leaked} goroutines left after Stop"
+                 else firstDiff ops want outs,
+         fail := if si then "" else if crashed then "the run crashed" else if leaked != 0 then "goroutines left after Stop"
+                 else directExplain workers ops outs,
+         nontrivial := decide (ops.length ≥ 2),
+         tags := ["via:direct", "exact-compare"] ++ tags,
+         key := s!"direct/w{workers}/{ops.map showDOp}" }
+
 def handle (input impl : Json) : R Reply := do
+  if fieldD input "via" (.str "") == .str "direct" then return ← handleDirect input impl
   let workers ← natF input "workers"
   let jobs ← listF asNat input "jobs"
   let k ← natF input "k"
